@@ -1,5 +1,5 @@
 (* C01 — supply changes only by scheduled mint minus configured burn. *)
-From C4E Require Import Base Minter MinterProofs Distributor DistrCoins DistrProofs SupplyProofs Vest VestFrame VestSupply.
+From C4E Require Import Base Minter MinterProofs Distributor DistrCoins DistrProofs SupplyProofs Vest VestFrame VestSupply AppBlock.
 Open Scope Z_scope.
 
 (* only the minter's BeginBlock creates coins: the supply grows by exactly the (non-negative) amount
@@ -50,6 +50,18 @@ Theorem C01_send_moves_between_two_accounts :
   forall a d, bal w' a d = bal w a d - (if a =? from then coins_amt d c else 0) + (if a =? to then coins_amt d c else 0).
 Proof. exact send_coins_bal. Qed.
 Print Assumptions C01_send_moves_between_two_accounts.
+
+(* the two begin-blockers in the order the application runs them (cfeminter mints the block's amount into
+   distributor_main_account, cfedistributor routes and burns): per denomination the sum of all balances changes by
+   exactly the schedule's amount for the block minus what the distribution burned, and the supply counter by the amount *)
+Theorem C01_block_changes_supply_by_mint_minus_burn :
+  forall w now a w', app_begin_block w now = Ok (a, w') -> 0 <= aw_mint_denom w ->
+  bank_wf (dw_bal (aw_distr w)) -> dc_wf (dw_burned (aw_distr w)) -> states_wf (dw_states (aw_distr w)) ->
+  0 <= a /\ mw_supply (aw_minter w') = mw_supply (aw_minter w) + a /\
+  forall d, btotal d (dw_bal (aw_distr w')) - btotal d (dw_bal (aw_distr w)) =
+            (if d =? aw_mint_denom w then a else 0) - (dc_amt d (dw_burned (aw_distr w')) - dc_amt d (dw_burned (aw_distr w))).
+Proof. exact app_block_supply. Qed.
+Print Assumptions C01_block_changes_supply_by_mint_minus_burn.
 
 From C4EProps Require C03 C05.
 Example C01_example :
